@@ -367,6 +367,8 @@ def hex_from_str(value: str) -> str:
     """Convert a string to a variable-length ASCII hex string."""
     if not isinstance(value, str):
         raise ValueError(f"Invalid value: {value}, is not a string")
+    if not all(31 < ord(x) < 127 for x in value):  # c.f. hex_to_str()
+        raise ValueError(f"Invalid value: {value}, is not printable ASCII")
     return "".join(f"{ord(x):02X}" for x in value)  # or: value.encode().hex()
 
 
